@@ -68,7 +68,7 @@ var c39Base = ref.Record{"1", "Steve", "2535405290989773", "7", "en_US", "1", "2
 // proxy's BedrockData can represent
 var c39Alpha = [ref.Fields][]string{
 	ref.FVersion:      {"0", "", "2.2.4-SNAPSHOT"},
-	ref.FUsername:     {"a", "x y", "Ünï€😀", "%s%d", "ABCDEFGHIJKLMNOP", strings.Repeat("long", 10), "a:b", "a!b"},
+	ref.FUsername:     {"a", "x y", "Ünï€😀", "%s%d", "ABCDEFGHIJKLMNOP", strings.Repeat("long", 10), "a:b", "a!b", strings.Repeat("N", 300)}, // 300: beyond the 255 bytes a handshake host may have
 	ref.FXuid:         {"1", "281474976710655", "9223372036854775807", "-1"},
 	ref.FDeviceOS:     {"0", "1", "2", "3", "4", "5", "6", "8", "9", "10", "11", "12", "13", "14", "15"},
 	ref.FLanguage:     {"", "de_DE"},
@@ -78,7 +78,7 @@ var c39Alpha = [ref.Fields][]string{
 	ref.FLinkedPlayer: {"", "JavaName;069a79f4-44e9-4726-a5be-fca90e38aaf5;00000000-0000-0000-0009-01f0e0d0c0b0"},
 	ref.FFromProxy:    {"1"},
 	ref.FSubscribeID:  {"123", "2147483647"},
-	ref.FVerifyCode:   {"x", "a b", strings.Repeat("v", 33), ""},
+	ref.FVerifyCode:   {"x", "a b", strings.Repeat("v", 33), "", strings.Repeat("c", 5000)},
 }
 
 // records: the base record, every single-field deviation, and (pairs=true) every two-field deviation.
@@ -596,6 +596,49 @@ func (c *c39) unrepresentable(cs c39case) {
 	c.vio("WriteHostname/unrepresentable-encoded/"+cs.Bad, cs, fmt.Sprintf("WriteHostname(%q, %+v) returned %q without error, which Floodgate's decoder cannot read back to the same host and fields", host, d, h))
 }
 
+// ---- quantifier audit: the cipher's own entry points on raw plaintexts of every small length ----
+
+var c39PlainLens = []int{0, 1, 2, 3, 4, 5, 6, 7, 8, 9, 10, 11, 12, 13, 14, 15, 16, 17, 18, 19, 20, 21, 22, 23, 24, 25, 26, 27, 28, 29, 30, 31, 32, 33,
+	47, 48, 49, 63, 64, 65, 255, 256, 257, 4096}
+
+// cipherDirect: Floodgate.Decrypt on reference-sealed bytes and Floodgate.Encrypt read by the reference, for
+// a plaintext of cs.N bytes (every byte value occurs, NUL and 0xFF included: not a record).
+func (c *c39) cipherDirect(cs c39case) {
+	c.r.Eval(2)
+	pt := make([]byte, cs.N)
+	for i := range pt {
+		pt[i] = byte(i*37 + cs.N)
+	}
+	fg := c.fgs[cs.Key]
+	data, err := ref.Encrypt(c.keys[cs.Key], c.ivs[cs.IV], pt)
+	if err != nil {
+		c.r.T.Fatalf("reference encoder: %v", err)
+	}
+	var got []byte
+	if p, pv := vrt.Catch(func() { got, err = fg.Decrypt(data) }); p {
+		c.vio("Decrypt/panic:"+panicKind(pv), cs, fmt.Sprint(pv))
+	} else if err != nil {
+		c.vio("Decrypt/floodgate-data-rejected", cs, fmt.Sprintf("plaintext of %d bytes sealed by the reference: %v", cs.N, err))
+	} else if !bytes.Equal(got, pt) {
+		c.vio("Decrypt/plaintext-mismatch", cs, fmt.Sprintf("got %x want %x", got, pt))
+	}
+	var enc []byte
+	if p, pv := vrt.Catch(func() { enc, err = fg.Encrypt(pt) }); p {
+		c.vio("Encrypt/panic", cs, fmt.Sprint(pv))
+		return
+	}
+	if err != nil {
+		c.vio("Encrypt/error", cs, err.Error())
+		return
+	}
+	back, err := ref.Decrypt(c.keys[cs.Key], enc)
+	if err != nil {
+		c.vio("Encrypt/floodgate-cannot-decode", cs, fmt.Sprintf("reference Floodgate decoder: %v (data %q)", err, enc))
+	} else if !bytes.Equal(back, pt) {
+		c.vio("Encrypt/plaintext-mismatch", cs, fmt.Sprintf("Floodgate reads %x, proxy sealed %x", back, pt))
+	}
+}
+
 func selfTest(t *testing.T) {
 	// the hand-written base64 of the reference must agree with RFC 4648 as implemented by the standard library
 	for n := 0; n <= 70; n++ {
@@ -661,6 +704,8 @@ func TestVerif(t *testing.T) {
 				c.sealedMalformed(rp, dc)
 			case "unrepresentable":
 				c.unrepresentable(rp)
+			case "cipher-direct":
+				c.cipherDirect(rp)
 			case "mutation":
 				base := rp
 				base.Kind, base.Mut, base.Off, base.Val, base.N = "", "", 0, 0, 0
@@ -808,6 +853,17 @@ func TestVerif(t *testing.T) {
 					c.unrepresentable(c39case{Kind: "unrepresentable", Key: ki, Host: vi % len(c39Hosts), Bad: bad, Val: vi})
 					r.Nontrivial(1)
 				}
+			}
+		}
+		// raw plaintexts through Floodgate.Decrypt / Floodgate.Encrypt
+		for ni, n := range c39PlainLens {
+			for ki := range c.keys {
+				if !mine() {
+					continue
+				}
+				r.Class(fmt.Sprintf("cipher-direct:len%%3=%d", n%3))
+				c.cipherDirect(c39case{Kind: "cipher-direct", Key: ki, IV: (ni + ki) % len(c.ivs), N: n})
+				r.Nontrivial(1)
 			}
 		}
 		// IV lengths 0..16, 24, 32 sealed by a key holder
